@@ -151,7 +151,15 @@ def _withdraw_k0(ctx):
     return ob_release(0, 1, real_kernel=True, only={'release:fails', 'release:share', 'release:prev', 'release:solvent', 'release:removed'})(ctx)
 
 
-OBLIGATIONS = [('withdraw_matured_with_pending_requests', _withdraw_immature), ('withdraw_without_release', _withdraw_k0), ('withdraw_released_claim_when_next_batch_matures', _withdraw_old), ('unbond_bsei_d1', ob_unbond('b', 1)), ('unbond_stsei_d1', ob_unbond('s', 1)), ('unbond_bsei_d2', ob_unbond('b', 2)),
+def _index_update_frame(ctx):
+    """UpdateGlobalIndex is the only hub transaction that runs the reward plumbing (swap, oracle): whether it commits or reverts
+    must not matter to an exit, so it may write nothing but last_index_modification - in particular not the epoch clock
+    last_unbonded_time, the open batch or the pools (world, claims and replay of C19's hub_update)"""
+    from checks.c19 import ob_hub_update
+    return ob_hub_update(1)(ctx)
+
+
+OBLIGATIONS = [('withdraw_matured_with_pending_requests', _withdraw_immature), ('index_update_leaves_exits_alone', _index_update_frame), ('withdraw_without_release', _withdraw_k0), ('withdraw_released_claim_when_next_batch_matures', _withdraw_old), ('unbond_bsei_d1', ob_unbond('b', 1)), ('unbond_stsei_d1', ob_unbond('s', 1)), ('unbond_bsei_d2', ob_unbond('b', 2)),
                ('unbond_stsei_d2', ob_unbond('s', 2)), ('independent_hub', ob_independent_hub), ('independent_tokens', ob_independent_tokens)]
 
 
@@ -161,6 +169,9 @@ def tier_filter(name, tier):
 
 def ORACLE(v, scn, out):
     key = v.get('key') or ''
+    if key.startswith('hub_update:'):
+        from checks.c19 import ORACLE as O19
+        return O19(v, scn, out)
     if key.startswith('release:'):
         from checks.c01 import ORACLE as O1
         return O1(v, scn, out)
